@@ -15,14 +15,14 @@ P = {
          "Direct predicates (monotone times, start/end, status honesty, evaluation times inside the interval, dimensions, finiteness) on every run of a large randomised and adversarial option sweep.",
          "harness-owned IVP implementation records every ode/events/jac call; rounding slack R_t = 4 eps max(|x0|,|xend|)", "§4 C03"),
  "C04": ("child-process execution with logical evaluation budget, stall detection and CPU limit; exit-status oracle",
-         "Each hostile solve_ivp call runs in its own child process under a right-hand-side evaluation budget (>=1000x head-room) and a CPU limit; termination is decided as bounded work, panics by exit status, and the returned prefix is validated.",
+         "Each hostile solve_ivp call runs in its own child process under a right-hand-side evaluation budget (>=1000x head-room) and a CPU limit; termination is decided as bounded work (no progress of the evaluated times between two windows of 1e6 calls), panics by exit status, and the returned prefix is validated.",
          "termination restated as bounded work; wall-clock watchdog firing = inconclusive", "§4 C04"),
  "C05": ("pilot-run adversarial placement of requested times + exact sequence/bit-pattern comparison + dense twin comparison",
          "Requested times are placed on / next to / inside the accepted-step grid revealed by a pilot run; reported times must equal the request bit for bit, values must equal sol(t) of the dense twin bitwise and the exact solution within the C01/C07 bound; early-stop prefix rules checked against the twin without t_eval.",
          "C12 (grid independent of output options) is verified per case by the ode-log hash before the twin is used", "§4 C05"),
  "C06": ("endpoint-identity and span monitors on every stored dense segment and on the interpolants handed to SolOut",
          "For every accepted step of every run: interpolant equals the stored state at both step ends (rounding bound), sol(t_i) reproduces samples, sol succeeds exactly on the covered span and fails outside, NotEnabled when disabled.",
-         "rounding bound 64 eps (|y| + |h f|)", "§4 C06"),
+         "rounding bound 256 eps (|y| + (|h| + |t|) |f|)", "§4 C06"),
  "C07": ("continuous order conditions on extracted dense weights b_j(theta) (exhaustive over rooted trees) + empirical interior error slopes + Radau collocation polynomial check",
          "Dense-output weights are extracted from the real interpolant and checked against all continuous order conditions up to q at many theta; interior error slopes on closed-form problems for all six methods; BDF interior vs endpoint error on whole runs.",
          "order-condition theory; extraction exact", "§4 C07"),
@@ -42,7 +42,7 @@ P = {
          "The complete sequence of right-hand-side calls (times and states, accepted and rejected attempts) must be bit-identical across all output-option subsets and across repetitions.",
          "ode-log hash collision probability negligible (64-bit FNV over all bit patterns)", "§4 C12"),
  "C13": ("metamorphic pair monitors (time reflection, 2^k scaling, scalar-vs-vector tolerance, identical copies), bitwise where the property says so",
-         "Pairs of exactly equivalent problems must yield bitwise equivalent trajectories (explicit methods; implicit with user Jacobian); copies relation judged on first step, step counts and C01 bound.",
+         "Pairs of exactly equivalent problems must yield bitwise equivalent trajectories (explicit methods; implicit with user Jacobian); copies relation judged on first step, step counts and accuracy relative to the single system.",
          "symmetry relations hold bitwise on the repaired tree (measured), so exact equality is the oracle", "§4 C13"),
  "C14": ("reference-solution monitor on stiff families (Prothero-Robinson with exact solution, Robertson/Van der Pol vs committed reference table) + step-count-vs-stiffness monitor + invariant monitor",
          "Radau/BDF on stiffness ratios 1e2..1e10: Success, error within tolerance scale, step count flat in the ratio, linear invariants preserved.",
